@@ -39,6 +39,7 @@ func runC13(r *an.Run) {
 	// line once with a space prefix means the same as writing it as an identical '-'/'+' pair
 	c01SplitPatch(r)
 	relabel(r, "R9-minus-plus-split", "R7-a-space-prefixed-line-is-context")
+	positionsReadBeforeStrip(r, "R8-marker-or-context-first-line-same-start")
 }
 
 func c13CommentsSkipped(r *an.Run) {
